@@ -557,6 +557,28 @@ func (c *vacCase) run() {
 				c.fail(fmt.Sprintf("vacuum crashed after %d of %d mutations: the current version refers to deleted objects: %v", k, total, d[:min(len(d), 3)]))
 				return
 			}
+			// the vacuum that comes after the crash, from a new process, must go through (F69) and change nothing
+			if k%3 == 0 {
+				db2 := sqlh.Open()
+				t3, err := c.mk(db2, false, "vr", nil)
+				if err != nil {
+					c.fail(fmt.Sprintf("open for the vacuum after crash run %d: %v", k, err))
+					db2.Close()
+					return
+				}
+				if err := s3db.Vacuum(context.Background(), t3, cutoff); err != nil {
+					c.fail(fmt.Sprintf("vacuum crashed after %d of %d mutations: the next vacuum fails: %v", k, total, err))
+				} else if fr, err := c.freshRows(); err != nil || fr != freshBefore {
+					c.fail(fmt.Sprintf("vacuum crashed after %d of %d mutations, then a complete vacuum: a later open sees %q (err %v), want %q", k, total, fr, err, freshBefore))
+				} else if d := c.dangling("p/s3db-rows/root/"); len(d) > 0 {
+					c.fail(fmt.Sprintf("vacuum crashed after %d of %d mutations, then a complete vacuum: a listed version refers to deleted objects: %v", k, total, d[:min(len(d), 3)]))
+				}
+				db2.Close()
+				c.st.Count("vacuum_after_crash_runs")
+				if c.failed {
+					return
+				}
+			}
 		}
 	}
 	// every single storage fault inside vacuum (the process lives on): whatever vacuum answers, the same
@@ -565,7 +587,7 @@ func (c *vacCase) run() {
 	if c.r.Bool() {
 		fcut = time.Now().Add(time.Hour)
 	}
-	for k := 0; k <= 40 && !c.failed; k++ {
+	for k := 0; k <= 80 && !c.failed; k++ {
 		c.store.Restore(snap)
 		db := sqlh.Open()
 		var vcl *fakes3.Client
@@ -577,8 +599,19 @@ func (c *vacCase) run() {
 		}
 		_, mm := vcl.Counts()
 		hit := false
+		reads, readFault := 0, k%2 == 1 // odd runs fail the (k/2)-th READ of the vacuum instead of a mutation
 		vcl.Fault = func(idx, midx int, op, key string) error {
-			if !hit && (op == "PUT" || op == "DEL") && midx == mm+k {
+			if readFault {
+				if op == "GET" || op == "LIST" {
+					reads++
+					if !hit && reads-1 == k/2 {
+						hit = true
+						return fakes3.ErrInjected
+					}
+				}
+				return nil
+			}
+			if !hit && (op == "PUT" || op == "DEL") && midx == mm+k/2 {
 				hit = true
 				return awserr.New("InternalError", "injected fault", nil)
 			}
@@ -588,10 +621,17 @@ func (c *vacCase) run() {
 		vcl.Fault = nil
 		if !hit {
 			db.Close()
+			if readFault {
+				continue
+			}
 			break
 		}
 		c.st.Count("vacuum_fault_runs")
-		stage := fmt.Sprintf("vacuum with mutation %d failing once (vacuum answered %v)", k, verr)
+		stage := fmt.Sprintf("vacuum with mutation %d failing once (vacuum answered %v)", k/2, verr)
+		if readFault {
+			c.st.Count("vacuum_read_fault_runs")
+			stage = fmt.Sprintf("vacuum with read %d failing once (vacuum answered %v)", k/2, verr)
+		}
 		if got := sqlh.QS(db, fmt.Sprintf(`select k,a from "%s" order by k`, t2)); got != freshBefore {
 			c.fail(fmt.Sprintf("%s: rows through the vacuuming connection changed: %q -> %q", stage, freshBefore, got))
 		} else if err := sqlh.Exec(db, fmt.Sprintf(`insert into "%s" values(?,?)`, t2), 9998, "after-fault"); err != nil {
@@ -622,7 +662,7 @@ func vacCmd(args []string) int {
 	fs.Parse(args)
 	setKnown(*kn)
 	st := NewStats("vac", *seed)
-	st.Rule = "histories of 4-18 steps by 1-2 writers (inserts, deletes, insert-then-delete and update-and-back so that old and new versions share content-addressed nodes, delete-then-re-insert, multi-row transactions, merging refreshes; entries_per_node in {2,4,4096}, node_cache_entries in {0,16,1000}), then s3db.Vacuum from an old or a new connection with a cutoff in the past, in the future, outside the range of int64 nanoseconds (years 1000, 2262, 2300, 9999), or at one of the instants recorded between the steps; the vacuuming connection is new, a refreshed writer, the only writer unrefreshed, or a stale writer that has not seen the other writer's versions; one vacuum in five runs inside a transaction that changed nothing and is rolled back afterwards; checks: rows unchanged through the vacuuming and a fresh connection, no version object in root/current or root/merged reaches a missing node, exactly the delete markers older than the cutoff are gone and every other entry is byte-for-byte as before, future cutoff leaves no superseded version, every version created at or after the cutoff re-reads exactly as it did, a repeated vacuum changes nothing, a further vacuum with a cutoff in the future leaves rows and reachability intact, the table stays writable, every single storage fault inside vacuum with the same connection used afterwards, and EVERY crash point inside vacuum (restore, crash after k mutations, re-open); distinct = distinct history (all non-trivial)"
+	st.Rule = "histories of 4-18 steps by 1-2 writers (inserts, deletes, insert-then-delete and update-and-back so that old and new versions share content-addressed nodes, delete-then-re-insert, multi-row transactions, merging refreshes; entries_per_node in {2,4,4096}, node_cache_entries in {0,16,1000}), then s3db.Vacuum from an old or a new connection with a cutoff in the past, in the future, outside the range of int64 nanoseconds (years 1000, 2262, 2300, 9999), or at one of the instants recorded between the steps; the vacuuming connection is new, a refreshed writer, the only writer unrefreshed, or a stale writer that has not seen the other writer's versions; one vacuum in five runs inside a transaction that changed nothing and is rolled back afterwards; checks: rows unchanged through the vacuuming and a fresh connection, no version object in root/current or root/merged reaches a missing node, exactly the delete markers older than the cutoff are gone and every other entry is byte-for-byte as before, future cutoff leaves no superseded version, every version created at or after the cutoff re-reads exactly as it did, a repeated vacuum changes nothing, a further vacuum with a cutoff in the future leaves rows and reachability intact, the table stays writable, every single storage fault inside vacuum (a failing PUT/DELETE, or a failing GET/LIST) with the same connection used afterwards, and EVERY crash point inside vacuum (restore, crash after k mutations, re-open; after every third crash point a complete vacuum from a new connection, which must succeed and change nothing); distinct = distinct history (all non-trivial)"
 	isChild, from, to := childRange()
 	if !isChild {
 		NewEmitter(*outp+".ops", *outp+".exp").Close()
